@@ -20,7 +20,7 @@ from cirkit.utils.scope import Scope
 RULE = ("every symbolic initialiser (constant scalar / constant array incl. broadcast shapes and complex values, "
         "Dirichlet with scalar or per-category concentration on every admissible axis given positive or negative, "
         "uniform, normal) x tensor shapes of rank 1-4 x learnable / non-learnable x fold groupings (alone, folded with "
-        "1-3 identically shaped siblings using the same or other initialisers, unfolded) x repeated reset_parameters(); "
+        "1-3 identically shaped siblings using the same or other initialisers, unfolded) x repeated reset_parameters(), the values being overwritten with a sentinel before each reset; "
         "slices read through the compiler registry: constants equal exactly, Dirichlet slices sum to one along the "
         "declared axis and are non-negative, uniform within bounds, dtype and requires_grad as declared; also at "
         "circuit level (sum-layer weights folded by the compiler); non-trivial = distinct (initialisers, shape, grouping)")
@@ -62,12 +62,17 @@ def build_init(d):
     return NormalInitializer(d["mean"], d["stddev"])
 
 
+SENTINEL = -123.0
+
+
 def verify_slice(t: torch.Tensor, d: dict, shape, learnable: bool):
     """Returns None if the slice conforms to the initialiser, else a description."""
     if tuple(t.shape) != tuple(shape):
         return f"slice shape {tuple(t.shape)} != {tuple(shape)}"
     k = d["kind"]
     x = t.detach().numpy()
+    if np.any(x == SENTINEL):
+        return "reset_parameters() left the values written before the reset in place"
     if not np.all(np.isfinite(x)):
         return "non-finite values"
     if k == "const_scalar":
@@ -106,6 +111,12 @@ def run_scenario(run: Run, scen: dict, rng: random.Random):
             else:
                 holders = tps
             for rep in range(3):
+                if rep:
+                    # values have changed since the last reset (training, loading): a reset must draw them anew
+                    with torch.no_grad():
+                        for s_ in syms:
+                            pt_, _ = comp.state.retrieve_compiled_parameter(s_)
+                            pt_._ptensor.fill_(SENTINEL)
                 for h in holders:
                     h.reset_parameters()
                 for s, d in zip(syms, inits):
@@ -151,6 +162,10 @@ def run_scenario(run: Run, scen: dict, rng: random.Random):
             tc = comp.compile(sc)
             for rep in range(3):
                 if rep:
+                    with torch.no_grad():
+                        for s_ in syms:
+                            pt_, _ = comp.state.retrieve_compiled_parameter(s_)
+                            pt_._ptensor.fill_(SENTINEL)
                     tc.reset_parameters()
                 for s, d in zip(syms, inits):
                     pt, idx = comp.state.retrieve_compiled_parameter(s)
